@@ -230,6 +230,22 @@ def sc_conn_closed_by_peer(w, n, kind, how="close"):
             w.peer_close(c)
 
 
+def sc_lost_while_handling(w, n, kind):
+    """the requester goes away while its request is still in the handler; the answer can then not be routed"""
+    w.behaviour_fn = lambda rec: "slow"
+    for i in range(n):
+        c = w.handshake_in("peer1.example", auth=[4], hbh=0x100 + i)
+        if c is None:
+            break
+        w.feed_msg(c, {"k": "REQ", "host": "peer1.example", "hbh": 0x1000 + i, "e2e": 0x1000 + i}, run=False)
+        w.k.run()
+        if i % 2:
+            w.feed_msg(c, {"k": "DPR", "host": "peer1.example", "hbh": 0x2000 + i, "e2e": 0x2000 + i})
+        w.peer_close(c)
+        w.advance(4)
+    w.behaviour_fn = None
+
+
 def sc_conn_reset(w, n, kind):
     sc_conn_closed_by_peer(w, n, kind, "reset")
 
@@ -376,6 +392,7 @@ SCENARIOS = {
     "dwr-from-node": (sc_dwr_from_node, {"idle": 2}),
     "conn-closed-by-peer": (sc_conn_closed_by_peer, {}),
     "conn-reset": (sc_conn_reset, {}),
+    "requester-lost-while-handling": (sc_lost_while_handling, {}),
     "conn-dpr": (sc_conn_dpr, {}),
     "unknown-peer": (sc_unknown_peer, {}),
     "accept-no-cer": (sc_accept_no_cer, {}),
